@@ -256,6 +256,33 @@ def parts(tier):
     ps.append(InputPart("erase-points-ulp", gen_pt_ulp, lambda c: _check_pt(c, False),
                         rule="point subsets (distinct and equal labels) and regions on the ulp-neighbour grid", bounds={}))
 
+    bgrid = D.BIG
+
+    def gen_big():
+        for s in D.interval_sets(bgrid, 2 if quick else 3):
+            for e in ([D.labelled(s, "abc")] + ([D.labelled(s, "a")] if len(s) > 1 else [])):
+                for a in bgrid:
+                    for b in bgrid:
+                        if a < b:
+                            yield (e, bgrid[0], bgrid[-1], a, b)
+
+    ps.append(InputPart("erase-intervals-far-from-zero", gen_big, lambda c: _check_iv(c, True),
+                        rule="interval sets (distinct and equal labels) and regions on the dyadic grid 2**40 + {0, 2**-7, 0.25, 0.5, 1, 2, 3, 4}, "
+                             "bit-exact: entries after the region move by exactly end-start, nothing is snapped to a 'close' value",
+                        bounds={"oracle": "bit-exact"}, snippet=_snippet))
+
+    def gen_pt_big():
+        for s in D.point_sets(bgrid, 3):
+            for labs in ("xyz", "x"):
+                p = D.labelled_points(s, labs)
+                for a in bgrid:
+                    for b in bgrid:
+                        if a < b:
+                            yield (p, bgrid[0], bgrid[-1], a, b)
+
+    ps.append(InputPart("erase-points-far-from-zero", gen_pt_big, lambda c: _check_pt(c, True),
+                        rule="point subsets (distinct and equal labels) and regions on the far-from-zero grid, bit-exact", bounds={}))
+
     tgrid = D.unit_grid(5)
     tsets = D.interval_sets(tgrid, 2)
     tpts = D.point_sets(tgrid, 2)
